@@ -427,8 +427,8 @@ def gen_td_long(rng, n, tag='g', nmax=5000):
     return out
 def gen_td_all(rng, n, tag='d'):
     k = max(1, n // 3)
-    nl = max(2, n // 15)
-    return gen_td(rng, n - k - nl, tag) + gen_td_boundary(rng, k, tag + 'b') + gen_td_long(rng, nl, tag + 'l', 5000 if n < 2000 else 50000)
+    nl = min(max(2, n // 15), 80)
+    return gen_td(rng, n - k - nl, tag) + gen_td_boundary(rng, k, tag + 'b') + gen_td_long(rng, nl, tag + 'l', 5000 if n < 2000 else 30000)
 GEN['td'] = gen_td_all
 QUICK['td'] = 300
 THOROUGH['td'] = 6000
